@@ -21,6 +21,7 @@ EXPLANATION = (
     "environment, then declared default, presence tested per key) so that both mechanisms named by the property reach the reader. Does not decide: equality of the two analyses as values "
     "(it follows from these clauses plus C16's 'same spelling, same entity')."
     ' R14.2 also rejects a schema name fixed in the code at a construction site; R14.3 also covers comparisons with a freshly built default schema or the configured name (lambdas included); R14.7 (= R12.2) no memo outlives a change of the default; R14.8 (= R15.7) the analysis stays in the calling thread.'
+    ' R14.2 follows the schema argument through locals, `or` and conditional expressions, and rejects the schema of another object given to an unqualified name; a comparison with the configured default is never an allowed placeholder test.'
 )
 RULE_TEXT = "one obligation per import-time call chain, Table construction site, Schema truthiness test and fallback branch; all non-trivial except anchors"
 
